@@ -186,9 +186,28 @@ class C17(Prop):
             for emit in (True, False):
                 res.append(("extract", {"op": "extract", "line": line, "typ": typ2, "emit": emit}, self.py_extract(line, typ2, emit)))
                 res.append(("interp", {"op": "interp", "doc": line, "typ": typ2, "emit": emit}, self.py_interp(line, typ2, emit)))
+        # the entry emitters of the three styles hand BOTH values of emit_default_doc on to set_default_doc
+        if c["dom"] and c["doc"]:
+            from doctrans.docstring_utils import emit_param_str
+
+            pj = {"doc": c["doc"]}
+            pp = {"doc": c["doc"]}
+            if c["typ"] is not None:
+                pj["typ"], pp["typ"] = c["typ"], c["typ"]
+            if c["has_default"]:
+                pj["default"], pp["default"] = c["default"], v
+            for style in ("rest", "numpydoc", "google"):
+                for emit in (True, False):
+                    try:
+                        impl = {"ok": emit_param_str((c["name"], copy.deepcopy(pp)), style=style, emit_doc=True, emit_type=True, word_wrap=False, emit_default_doc=emit)}
+                    except Exception as e:
+                        impl = {"raises": exc_kind(e)}
+                    res.append(("emit_param_" + style, {"op": "emit_param_str", "name": c["name"], "param": pj, "style": style, "emit": emit}, impl))
         return res
 
     def canon_model(self, layer, op, ans):
+        if layer.startswith("emit_param_"):
+            return ans
         if "ok" in ans:
             o = ans["ok"]
             return {"ok": {"doc": o.get("doc"), "default": canon_val(o.get("default"))}}
